@@ -143,6 +143,13 @@ func parsePSISection(i *astikit.BytesIterator) (s *PSISection, stop bool, err er
 		return
 	}
 
+	// A table that carries a CRC32 has a section length that makes room for it at least: a length of 0 isn't the
+	// length of this section, and what follows the header isn't the next section
+	if s.Header.SectionLength == 0 && s.Header.TableID.hasCRC32() {
+		err = fmt.Errorf("astits: section length 0 leaves no room for the CRC32 of table id %d", s.Header.TableID)
+		return
+	}
+
 	// Check whether there's a syntax section
 	if s.Header.SectionLength > 0 {
 		// Parse syntax
